@@ -5,6 +5,7 @@ import Thanos.Lemmas.Proxy
 import Thanos.Lemmas.DedupOnce
 import Thanos.Lemmas.KMerge
 import Thanos.Lemmas.SortSpec
+import Thanos.Lemmas.LoserTreeFrames
 import Thanos.Generated.Facts
 /-
   C03 — StoreAPI fan-out merge returns each series once, sorted, with all chunks.
@@ -453,13 +454,34 @@ theorem C03_delivered_lazy_eager (rq : Request) (stores : List Store) (s : Serie
   · rintro ⟨st, hst, ho, h⟩; exact ⟨st, hst, ho, (key st).mp h⟩
   · rintro ⟨st, hst, ho, h⟩; exact ⟨st, hst, ho, (key st).mpr h⟩
 
-/-- The loser tree of pkg/losertree (as transliterated in `Model/LoserTree.lean`, with the
-    comparator of `NewProxyResponseLoserTree`) is a k-way merge in the sense of `IsKMerge`.
-    **Not proved** (the stretch goal): the statement is kept as a `def`; `treeMerge` is tied to the
-    specification by the differential runs (`lt.merge`, `merge.series`) and by the Go oracle, which
-    checks sortedness / completeness of every answer of the real tree.  `C03_sorted_once`,
-    `C03_exact` and the C06 theorems hold for every merge that satisfies it. -/
-def losertree_refines : Prop := MergeSpec treeMerge
+/-- **The loser tree refines the k-way merge.**  pkg/losertree as transliterated in
+    `Model/LoserTree.lean` (`New`, `moveNext`, `initialize`/`playGame`, `Next`, `replayGames`), with the
+    comparator of `NewProxyResponseLoserTree`, delivers a k-way merge (`IsKMerge`) of the response
+    sets — for any number of stores and any stream lengths.  Proof: `Lemmas/LoserTree*.lean`
+    (tournament invariant with a ghost "winner of the subtree" function; `playGame` establishes it,
+    `replayGames` restores it after the winner's leaf advanced; the comparator refines the total
+    preorder "non-series first, series by labels, exhausted last" although it is not a strict weak
+    order on warnings/hints). -/
+theorem losertree_refines : MergeSpec treeMerge := treeMerge_isKMerge
+
+/-- `C03_sorted_once` for the model the driver runs against the real `ProxyStore.Series` -/
+theorem C03_sorted_once_tree (rq : Request) (stores : List Store) (hab : rq.abort = false)
+    (hlim : rq.limit = 0) (hd : rq.dedup = true) (hs : StoresSorted rq stores) :
+    (flatten (proxySeries rq stores).1).Pairwise (fun a b => cmpLabels a.lbls b.lbls = .lt) :=
+  C03_sorted_once treeMerge losertree_refines rq stores hab hlim hd hs
+
+/-- `C03_exact` for the model the driver runs -/
+theorem C03_exact_tree (rq : Request) (stores : List Store) (hab : rq.abort = false) (hlim : rq.limit = 0)
+    (hd : rq.dedup = true) (hfix : rq.fixedDedup = true)
+    (hkeys : ∀ ss : List Series, (∀ s ∈ ss, Delivered rq stores s) →
+      KeyInj (ss.flatMap (·.chunks)) ∧ Populated (ss.flatMap (·.chunks))) :
+    (∀ s, Delivered rq stores s → ∃ o ∈ flatten (proxySeries rq stores).1,
+        cmpLabels o.lbls s.lbls = .eq ∧ ∀ c ∈ s.chunks, c ∈ o.chunks) ∧
+    (∀ o ∈ flatten (proxySeries rq stores).1,
+        o.chunks.Nodup ∧ o.chunks.Pairwise timeLe ∧
+        (∃ s, Delivered rq stores s ∧ o.lbls = s.lbls) ∧
+        (∀ c ∈ o.chunks, ∃ s, Delivered rq stores s ∧ cmpLabels o.lbls s.lbls = .eq ∧ c ∈ s.chunks)) :=
+  C03_exact treeMerge (mergeMem_of_spec losertree_refines) rq stores hab hlim hd hfix hkeys
 
 /-! ### regenerated facts -/
 
